@@ -9,6 +9,7 @@ import (
 	"sort"
 	"strconv"
 	"strings"
+	"sync/atomic"
 	"time"
 )
 
@@ -138,6 +139,9 @@ func normFunc(fn string) string {
 
 // Blocked reports whether the goroutine cannot run without an outside event.
 func Blocked(g G) bool {
+	if g.State == "syscall" && strings.Contains(g.Text, "syscall.EpollWait(") {
+		return true // a poller of a running engine, waiting for events
+	}
 	switch g.State {
 	case "running", "runnable", "syscall", "waiting", "preempted", "copystack", "dead", "idle":
 		return false
@@ -209,22 +213,33 @@ func FDKind(entry string) string {
 // ---------------------------------------------------------------------------------------------
 // polling
 
-// WaitFor polls cond (first quickly, then every few milliseconds) until it holds or cap expires.
+// ParkedNominal accumulates the nominal time (ns) the harness asked to sleep in its polling and
+// observation loops: together with the CPU time it gives the cost of a part on a quiet machine
+// (under load the measured wall time says little).
+var ParkedNominal int64
+
+// Nap sleeps and books the nominal duration.
+func Nap(d time.Duration) {
+	atomic.AddInt64(&ParkedNominal, int64(d))
+	time.Sleep(d)
+}
+
+// WaitFor polls cond (first quickly, then every 2 ms) until it holds or cap expires.
 func WaitFor(cap time.Duration, cond func() bool) bool {
 	if cond() {
 		return true
 	}
 	end := time.Now().Add(cap)
-	d := 100 * time.Microsecond
+	d := 50 * time.Microsecond
 	for {
-		time.Sleep(d)
+		Nap(d)
 		if cond() {
 			return true
 		}
 		if time.Now().After(end) {
 			return cond()
 		}
-		if d < 5*time.Millisecond {
+		if d < 2*time.Millisecond {
 			d = d * 3 / 2
 		}
 	}
